@@ -225,10 +225,11 @@ pub fn property() -> Property {
                 |_| 0,
                 check_pair_strict,
             ),
+            crate::fuzz::replay_stream(),
         ],
         selfcheck: m::selfcheck,
         hang_is_violation: false,
         min_nontrivial_share: 0.05,
-        extra: None,
+        extra: Some(crate::fuzz::extra),
     }
 }
